@@ -53,6 +53,10 @@ func TestVerifReplayUnknownEnvKey(t *testing.T) {
 		t.Fatal(err)
 	}
 	stamp, _ := rec["stamp"].(string)
+	prefix := ""
+	if i := strings.IndexByte(stamp, ':'); i >= 0 { // execution identifier in front of the environment
+		prefix, stamp = stamp[:i+1], stamp[i+1:]
+	}
 	env, err := pickle.NewDecoder(base64.NewDecoder(base64.StdEncoding, strings.NewReader(stamp)), pickle.UnpicklerFunc(envUnpickler)).Decode()
 	if err != nil {
 		t.Fatal(err)
@@ -65,7 +69,7 @@ func TestVerifReplayUnknownEnvKey(t *testing.T) {
 		t.Fatal(err)
 	}
 	b64.Close()
-	rec["stamp"] = buf.String()
+	rec["stamp"] = prefix + buf.String()
 	out, _ := json.Marshal(rec)
 	if err := os.WriteFile(recPath, out, 0o644); err != nil {
 		t.Fatal(err)
